@@ -355,6 +355,9 @@ R_<TG_, TA_>::replayTransitions(const Transition* const transitions,
 			for (Short i = 0; i < count; ++i)
 				_core.previousTransitions.emplace(transitions[i]);
 
+			// enter() / exit() on the replica see the transitions (and payloads) they see on the authority
+			currentTransitions = _core.previousTransitions;
+
 			_apex.deepChangeToRequested(control);
 
 			_core.registry.clearRequests();
